@@ -60,6 +60,13 @@ func (prop) Generate(rng *rand.Rand, tier string) []corr.Case {
 	for i := 0; i < n/4; i++ {
 		cases = append(cases, corr.Case{Ops: bftsim.GenExtreme(rng, maxBlocks/2), Tag: "extreme"})
 	}
+	// aggregate commits carried by headers that imply no votes (standby generators, validators removed from
+	// the BFT parameters that keep generating, maxHeightGenerated >= height, first blocks of joining
+	// validators): maxHeightCertified and the pruning must follow the chain (bftsim/certified.go);
+	// generated last so that the cases above are unchanged for a given seed
+	for i := 0; i < n/5; i++ {
+		cases = append(cases, corr.Case{Ops: bftsim.GenNonVoting(rng, maxBlocks), Tag: "nonvoting"})
+	}
 	return cases
 }
 
@@ -178,6 +185,9 @@ func (prop) RunImpl(c corr.Case) ([]string, []corr.Fail) {
 	fails = append(fails, checkHistory(c, out)...)
 	// the votes implied by every single header (LIP-0058 rule with exact arithmetic, bftsim/votes.go)
 	fails = append(fails, bftsim.CheckVotes(c.Ops, out)...)
+	// maxHeightCertified = the certified height carried by the chain, whatever kind of header carried the
+	// aggregate commit (bftsim/certified.go)
+	fails = append(fails, bftsim.CheckCertified(c.Ops, out)...)
 	// monotonicity of the reported heights along the chain
 	var pm, pc uint64
 	var hist [][2]uint64 // heights before each block on the chain (restored by `revert`)
@@ -311,6 +321,13 @@ func (prop) Classify(c corr.Case, out []string) string {
 	}
 	if c.Tag == "extreme" {
 		return classifyExtreme(c, out, adv)
+	}
+	if c.Tag == "nonvoting" {
+		cl := "nonvoting:" + bftsim.ClassifyNonVoting(c.Ops, out)
+		if adv {
+			cl += "+finality"
+		}
+		return cl
 	}
 	if c.Tag == "heavy" {
 		okp, errp := 0, 0
